@@ -93,6 +93,8 @@ prop("C10", ["prims.go", "c10.go"],
           quick={"bound": "one stderr line of symbolic length <= 3 buffer-fulls, buffer size symbolic in [16, 2^20], terminator LF/CRLF/none; JSON classes with one extra key; text prefix classes"}),
       run("stderr-two-lines", "harnessC10two", ["first-line-single", "first-line-chunked", "first-line-exact-fit", "hclog-json", "text", "inside-panic-trace"],
           quick={"bound": "two stderr lines: the first a text line (plain / panic: / [LEVEL]) of symbolic length <= 2 buffers (shorter than, exactly, longer than the buffer), the second a one-piece line over the full class space; buffer size symbolic in [16, 2^20]"}),
+      run("panic-trace", "harnessC10trace", ["trace-done"],
+          quick={"bound": "six stderr lines: 'panic: <symbolic>', three unprefixed symbolic text lines, '[INFO] ...', one unprefixed symbolic text line; LF or CRLF on one of them; every line shorter than the buffer"}),
       run("stdout", "harnessC10stdout", ["after-handshake"], files=["prims.go", "c10b.go"],
           quick={"bound": "whole Client.Start with a valid handshake line followed by three stdout lines, the first of symbolic length <= 2^20 (either side of the 64 KiB Scanner limit)"}),
       ],
@@ -130,8 +132,8 @@ prop("C17", ["prims.go", "c17.go"],
 
 # ------------------------------------------------------------------------------------------------ C19
 prop("C19", ["prims.go", "c17.go"],
-     [run("sequences", "harnessC19", ["sequence-done"],
-          quick={"bound": "call sequences of length 3 over {Start, Protocol, ReattachConfig, Kill-then-Start}; first stdout line garbage or valid; RunnerFunc counting launches"}),
+     [run("sequences", "harnessC19", ["sequence-done", "runnerfunc-fails", "runner-start-fails"],
+          quick={"bound": "call sequences of length 3 over {Start, Protocol, ReattachConfig, Kill-then-Start}; the first launch: plugin prints garbage, prints a valid line, RunnerFunc returns an error, or the runner's Start returns an error; RunnerFunc invocations counted"}),
       run("concurrent", "harnessC19concurrent", ["two-starts", "two-clients", "done"], dpor=True, files=WORLD,
           quick={"max_reversals": 1, "race": True, "bound": "host x plugin composed (net/rpc and gRPC): two goroutines on one Client, each performing one of {Start, Client, Protocol+Exited+ID+ReattachConfig, Kill}; all schedules with <= 1 reversal, happens-before race detection; then Kill and another Start"})],
      [PROC, BUFIO, CTX, STR], ["as C01"],
@@ -209,8 +211,8 @@ prop("C18", ["prims.go", "m_print.go", "c18.go"],
 prop("C04", ["prims.go", "c04.go"],
      [run("kill-seam", "harnessC04", ["connected", "forced", "graceful", "kill-returned"],
           quick={"bound": "gRPC over the generated-client seam, RunnerFunc launch, connected client, one Kill; plugin behaviour in {cooperative after symbolic delay d, answers but never exits, frozen}"}),
-      run("kill-world", "harnessC04world", ["connected", "graceful", "forced", "already-dead", "repeated", "overlapping-kill", "client-failed-before-kill"], files=WORLD,
-          quick={"bound": "host x plugin composed, net/rpc and gRPC, both launch methods; plugin shutdown behaviour in {exits at once, exits after a symbolic clean-up time d <= 10 s, acknowledges but never exits, frozen (SIGSTOP), already crashed}; call pattern: one Kill, a repeated Kill, and a second Kill from another goroutine at a symbolic instant in [first Kill, +6 s]; also the history Start, plugin freezes or crashes, Client() (fails for net/rpc), Kill"}),
+      run("kill-world", "harnessC04world", ["connected", "graceful", "forced", "already-dead", "repeated", "overlapping-kill", "client-failed-before-kill", "kill-before-start"], files=WORLD,
+          quick={"bound": "host x plugin composed, net/rpc and gRPC, both launch methods; plugin shutdown behaviour in {exits at once, exits after a symbolic clean-up time d <= 10 s, acknowledges but never exits, frozen (SIGSTOP), already crashed}; call pattern: one Kill, a repeated Kill, and a second Kill from another goroutine at a symbolic instant in [first Kill, +6 s]; also the history Start, plugin freezes or crashes, Client() (fails for net/rpc), Kill; each history optionally preceded by a Kill before anything was started"}),
       run("cleanup-clients", "harnessC04cleanup", ["cleaned-up"], files=WORLD,
           quick={"bound": "CleanupClients over two managed clients (protocols free): the second healthy, ignoring the request, or never started"}),
       run("never-started", "harnessC04neverStarted", ["launch-failed", "concurrent-kill", "killed"], files=WORLD,
@@ -223,8 +225,8 @@ prop("C04", ["prims.go", "c04.go"],
 
 # ------------------------------------------------------------------------------------------------ C09
 prop("C09", ["prims.go", "c09a.go"],
-     [run("mux", "harnessC09a", ["accept-matched", "accept-timed-out", "probe-done"], dpor=True,
-          quick={"max_reversals": 1, "bound": "MuxBroker: <= 2 inbound dials with IDs x1, x2 NOT assumed distinct at symbolic instants t1 <= t2, <= 1 local Accept(a) at tA, then a fresh matched pair after every timer expired; symbolic clock (ties explored), all schedules with <= 1 reversal; every inbound stream is accepted or closed by the broker"},
+     [run("mux", "harnessC09a", ["accept-matched", "accept-timed-out", "probe-done", "stream-dropped-before-id"], dpor=True,
+          quick={"max_reversals": 1, "bound": "MuxBroker: optionally an inbound stream dropped by its peer before the ID was written, <= 2 inbound dials with IDs x1, x2 NOT assumed distinct at symbolic instants t1 <= t2, <= 1 local Accept(a) at tA, then a fresh matched pair after every timer expired; symbolic clock (ties explored), all schedules with <= 1 reversal; every inbound stream is accepted or closed by the broker"},
           thorough={"max_reversals": 2, "max_wall_s": 1500, "bound": "as quick with <= 2 reversals"}),
       run("grpc", "harnessC09grpc", ["history-done", "lonely-accept", "fresh-pair", "retry-of-timed-out-id", "closed"], files=["prims.go", "c07.go"],
           quick={"bound": "GRPCBroker without multiplexing, real stream pumps: <= 2 Dial calls nobody accepts (IDs not assumed distinct) and <= 1 Accept nobody dials, at symbolic instants; then a routed pair (accept, symbolic gap <= 4 s, dial) on a fresh ID or on the ID whose dial timed out earlier; then Close of both brokers", "params": {"as_c07": 0}}),
@@ -242,8 +244,8 @@ prop("C06", ["prims.go", "c06.go"],
      [run("routing", "harnessC06", ["dispensed", "routed"], dpor=True,
           quick={"max_reversals": 2, "bound": "two Dispense calls + two symbolic distinct IDs accepted on the host and dialled from the plugin within a symbolic gap < 5 s in either order; all schedules with <= 2 reversals"},
           thorough={"max_reversals": 3, "max_wall_s": 1700, "bound": "as quick with <= 3 reversals (260 747 schedules, 14.7 M solver queries, 13 min on 16 cores when measured)"}),
-      run("after-timeout", "harnessC06afterTimeout", ["lonely-on-host", "lonely-on-plugin", "timed-out", "routed"],
-          quick={"bound": "history prefix: one Dispense, then an Accept(id0) nobody dials on the host or the plugin broker (times out); afterwards a second Dispense and one symbolic ID accepted/dialled in either direction, either order, symbolic gap < 5 s; canonical schedule, symbolic clock"})],
+      run("after-timeout", "harnessC06afterTimeout", ["lonely-on-host", "lonely-on-plugin", "timed-out", "abandoned-dial", "routed"],
+          quick={"bound": "history prefix: one Dispense, then an Accept(id0) nobody dials on the host or the plugin broker (times out), optionally a stream opened by either end and dropped before its ID was written; afterwards a second Dispense and one symbolic ID accepted/dialled in either direction, either order, symbolic gap < 5 s; canonical schedule, symbolic clock"})],
      [YAMUX, NETRPC], ["yamux", "net/rpc", "encoding/binary"],
      "byte transport on a stream (yamux contract); 3 IDs; more than 1 reversal in quick",
      text="Bounded symbolic model checking of the real MuxBroker (Accept/Dial/Run/NextId/AcceptAndServe), dispenseServer.Dispense, RPCClient.Dispense and serve over paired-session yamux and net/rpc models, all schedules up to the reversal bound: Accept(n) returns the far end of the stream Dial(n) returned, and each Dispense reaches the server object created for that dispense.",
@@ -267,6 +269,8 @@ prop("C08", ["prims.go", "c08.go"],
       run("both-directions", "harnessC08seq", ["established", "host-accepts", "plugin-accepts", "dial-first", "accept-first"], dpor=True,
           quick={"max_reversals": 2, "params": {"k": 1}, "bound": "one establishment in either direction (plugin accepts / host dials, or host accepts / plugin dials), accept-first or dial-first, symbolic gap and ID; all schedules with <= 2 reversals"},
           thorough={"max_reversals": 1, "params": {"k": 2}, "max_wall_s": 1500, "bound": "two sequential establishments, each in either direction and either order, distinct symbolic IDs; all schedules with <= 1 reversal"}),
+      run("second-connection", "harnessC08second", ["both-established", "host-accepts", "plugin-accepts", "dial-first", "accept-first"],
+          quick={"bound": "two establishments in the SAME direction (plugin accepts both, or host accepts both) on distinct symbolic IDs, each accept-first or dial-first with a symbolic gap < 5 s; the first ID's listener keeps being served (Accept in a loop, as a gRPC server does) while the second is established; canonical schedule"}),
       run("same-id-both-ways", "harnessC08sameID", ["established", "host-accepts-first", "plugin-accepts-first", "dial-first", "accept-first"],
           quick={"bound": "two establishments with ONE symbolic ID, the second in the opposite direction and starting a symbolic pause in [0, 10 s] after the first completed (timers armed by the first still running), each accept-first or dial-first with a symbolic gap < 5 s; canonical schedule, symbolic clock"})],
      [YAMUX, "the two brokers talk through an in-model FIFO streamer pair"], ["yamux", "broker stream"],
@@ -277,6 +281,8 @@ prop("C11", ["prims.go", "c11.go"],
      [run("grpc-stdio", "harnessC11", ["delivered"], dpor=True,
           quick={"max_reversals": 2, "race": True, "bound": "gRPC: two stdout chunks and one stderr chunk, each an opaque byte view of symbolic length 1..1024; all schedules with <= 2 reversals; happens-before race detection on the chunk buffer"},
           thorough={"max_reversals": 3, "race": True, "max_wall_s": 1500, "bound": "as quick with <= 3 reversals"}),
+      run("large-write", "harnessC11large", ["one-chunk", "several-chunks", "beyond-bufio-buffer"],
+          quick={"bound": "gRPC seam: one stdout write of symbolic length 1..5000 (either side of the 1 KiB chunk and of bufio's 4 KiB buffer) followed by a short one; bufio.Reader modelled with its read-ahead buffer; canonical schedule"}),
       run("composed", "harnessC11world", ["delivered", "written-before-attach"], files=WORLD,
           quick={"bound": "host x plugin composed, net/rpc, gRPC and gRPC+mux, both launch methods: the plugin writes two stdout chunks and one stderr chunk (arbitrary contents, symbolic length 1..1024) to its process streams after serving began, before or after the host attached; what SyncStdout/SyncStderr received is compared with what was written"}),
       run("second-host", "harnessC11secondHost", ["written-while-detached", "delivered-to-second-host"], files=WORLD,
@@ -294,6 +300,8 @@ prop("C20", ["prims.go", "c20.go"],
       run("serve-shutdown", "harnessC20serveShutdown", ["host-side", "plugin-side", "after-shutdown", "shut-down"], dpor=True, files=WORLD,
           quick={"max_reversals": 1, "race": True, "bound": "host x plugin composed over gRPC, multiplexing on and off: a brokered server being started (AcceptAndServe on the host broker, or on the plugin broker inside the plugin) while the client is killed, and on the host another AcceptAndServe after the shutdown returned; all schedules with <= 1 reversal, happens-before race detection"},
           thorough={"max_reversals": 2, "race": True, "max_wall_s": 1500, "bound": "as quick with <= 2 reversals (50 535 schedules, 91 s when measured)"}),
+      run("mux-listener-close", "harnessC20muxListenerClose", ["host-side", "plugin-side", "closed-twice"], dpor=True, files=["prims.go", "c08.go"],
+          quick={"max_reversals": 2, "race": True, "bound": "a multiplexed brokered listener (host side or plugin side) closed from two goroutines at once and once more afterwards; all schedules with <= 2 reversals, happens-before race detection"}),
       run("accept-close", "harnessC20brokerClose", ["host-side", "plugin-side", "both-returned"], dpor=True, files=["prims.go", "c07.go"],
           quick={"max_reversals": 3, "race": True, "bound": "a GRPCBroker.Accept (sending through the real stream pump) racing with Close of the same broker, host side and plugin side, all schedules with <= 3 reversals"},
           thorough={"max_reversals": 4, "race": True, "max_wall_s": 1500, "bound": "as quick with <= 4 reversals"})],
